@@ -78,10 +78,12 @@ type AllocSize struct {
 
 // String returns the string representation of the allocsize attribute.
 func (a AllocSize) String() string {
+	// The operands are unsigned: an operand of 2^63 or more (read into an int
+	// by the parser) is not printed with a sign.
 	if a.NElemsIndex == -1 {
-		return fmt.Sprintf("allocsize(%d)", a.ElemSizeIndex)
+		return fmt.Sprintf("allocsize(%d)", uint64(a.ElemSizeIndex))
 	}
-	return fmt.Sprintf("allocsize(%d, %d)", a.ElemSizeIndex, a.NElemsIndex)
+	return fmt.Sprintf("allocsize(%d, %d)", uint64(a.ElemSizeIndex), uint64(a.NElemsIndex))
 }
 
 // Arg is a function argument with optional parameter attributes.
@@ -239,10 +241,11 @@ type VectorScaleRange struct {
 
 // String returns the string representation of the vscale_range attribute.
 func (a VectorScaleRange) String() string {
+	// The operands are unsigned (see AllocSize.String).
 	if a.Min == -1 {
-		return fmt.Sprintf("vscale_range(%d)", a.Max)
+		return fmt.Sprintf("vscale_range(%d)", uint64(a.Max))
 	}
-	return fmt.Sprintf("vscale_range(%d, %d)", a.Min, a.Max)
+	return fmt.Sprintf("vscale_range(%d, %d)", uint64(a.Min), uint64(a.Max))
 }
 
 // TODO: check if *ir.InstLandingPad is a valid ExceptionPad.
